@@ -154,7 +154,13 @@ def w_maximal(ctx, rng, idx):
         Bm = mat(dense(B)) if B is not None else None
         w, V = sla.eigh(Am, Bm)
         g = gen.rand_tt(rng, dims, [1] * d, gen.max_ranks(dims, [1] * d), cplx)
-    which = int(rng.integers(0, 3))
+    first = int(rng.integers(0, 3))
+    # the same operator / guess objects are solved for two different targets in a row (second call: anything kept from the first shows)
+    for which in ([first, (first + 1 + int(rng.integers(0, 2))) % 3] if rng.random() < 0.5 else [first]):
+        _maximal_one(ctx, rng, which, A, B, g, Am, Bm, w, V, dims, cplx, gevp, second=(which != first))
+
+
+def _maximal_one(ctx, rng, which, A, B, g, Am, Bm, w, V, dims, cplx, gevp, second=False):
     if which == 0:
         solver, sigma, target = 'eigh', 1.0, -1
     elif which == 1:
@@ -165,7 +171,7 @@ def w_maximal(ctx, rng, idx):
     if B is not None:
         kw['operator_gevp'] = B
     ctx.describe({'op': 'evp.als maximal ranks', 'dims': dims, 'complex': cplx, 'gevp': gevp, 'solver': solver, 'sigma': sigma})
-    tags = ['solver=' + solver] + (['complex'] if cplx else []) + (['gevp'] if gevp else [])
+    tags = ['solver=' + solver] + (['complex'] if cplx else []) + (['gevp'] if gevp else []) + (['second_call'] if second else [])
     ok, r = call('evp.als', evp.als, A, g, prop=P, tags=tags, refusals=(sla.LinAlgError, np.linalg.LinAlgError), **kw)
     if not ok:
         ctx.skip('evp_micro_solver_refused')
@@ -201,12 +207,12 @@ def w_deflation(ctx, rng, idx):
     d = len(dims)
     cplx = bool(rng.integers(0, 2))
     A = hermitian_op(rng, dims, cplx)
-    nprev = int(rng.integers(1, 3))
+    nprev = int(rng.integers(1, 4))
     shift = float(rng.uniform(-3, 3))
     with probe.oracle():
         prev = []
         for _ in range(nprev):
-            p = gen.rand_tt(rng, dims, [1] * d, gen.feasible_ranks(dims, [1] * d, [1] + [2] * (d - 1) + [1]), cplx)
+            p = gen.rand_tt(rng, dims, [1] * d, gen.feasible_ranks(dims, [1] * d, [1] + [int(rng.integers(1, 4)) for _ in range(d - 1)] + [1]), cplx)
             p = (1.0 / p.norm()) * p
             prev.append(p)
         A2 = A
